@@ -20,7 +20,7 @@ claimed.update({
   note="Pool sizes /29 (quick), /28 (thorough); the allocation trigger (UE IP Address IE flags) is exercised through C02/C05 harnesses. Assumes sync.Mutex gives mutual exclusion. Schedules: 2 goroutines, <= 3 operations, interleavings at critical-section granularity (finer ones are irrelevant once no shared access happens outside a critical section, which the discipline check establishes on the same paths); more goroutines or longer operation sequences are outside.",
   ref="DESIGN.md 6.6"),
  "C07": dict(
-  text="Inductive one-step checks: FTEIDGenerator.Allocate/FreeID/IsAllocated from an arbitrary valid generator state (symbolic cursor, so wrap-around of the 32-bit cursor is an ordinary case, symbolic used set) and NewPFCPSession with an arbitrary, possibly repeating random source against a store holding arbitrary live sessions; the solver decides non-zero, uniqueness among live ids, cursor invariant and refusal rules. Concurrent requests: lock discipline on usedMap/offset plus every interleaving of the critical sections of two goroutines (Allocate against Allocate [+ FreeID]), context-switch bound 3. A UPF-chosen identifier stays marked while its session lives whatever CP-chosen identifiers other sessions bring and release (H_C07_live, all 2^32 values). Agreement between reported and programmed identifiers is checked in the C02/C05 message harnesses.",
+  text="Inductive one-step checks: FTEIDGenerator.Allocate/FreeID/IsAllocated from an arbitrary valid generator state (symbolic cursor, so wrap-around of the 32-bit cursor is an ordinary case, symbolic used set) and NewPFCPSession with an arbitrary, possibly repeating random source against a store holding arbitrary live sessions; the solver decides non-zero, uniqueness among live ids, cursor invariant and refusal rules. Concurrent requests: lock discipline on usedMap/offset plus every interleaving of the critical sections of two goroutines (Allocate against Allocate [+ FreeID]), context-switch bound 3. A UPF-chosen identifier stays marked while its session lives whatever CP-chosen identifiers other sessions bring and release (H_C07_live, all 2^32 values); a CHOOSE F-TEID on a core-side PDR is served like one on the access side (H_C07_core). Agreement between reported and programmed identifiers is checked in the C02/C05 message harnesses.",
   note="Used set <= 2 (quick) / 4 (thorough) entries, store <= 2/3 sessions, maxRetries <= 2/4. Assumes sync.Mutex gives mutual exclusion; schedules of 2 goroutines at critical-section granularity only; SEID draw and PutSession are not atomic across goroutines of ONE association (there is one goroutine per association).",
   ref="DESIGN.md 6.7"),
  "C09": dict(
@@ -34,7 +34,7 @@ claimed.update({
 })
 claimed.update({
  "C01": dict(
-  text="Bounded model checking: for each of the ten message types HandlePFCPMsg dispatches, a datagram is serialised from a valid baseline IE tree with one (quick) or two (thorough) structural mutations at any IE of the tree (drop, duplicate, empty, truncate, retype, arbitrary first byte, first byte only, arbitrary payload / truncated flow description), injected before/after association and before/after an accepted establishment into the real message.Parse + dispatch + handlers; arbitrary raw datagrams of <= 9 (quick) / 14 (thorough) bytes are explored too. Every Go run-time panic, process exit, blocked channel operation or second response on any path is a violation; a valid heartbeat afterwards must be answered.",
+  text="Bounded model checking: for each of the ten message types HandlePFCPMsg dispatches, a datagram is serialised from a valid baseline IE tree with one (quick) or two (thorough) structural mutations at any IE of the tree (drop, duplicate, empty, truncate, retype, arbitrary first byte, first byte only, arbitrary payload / truncated flow description), injected before/after association and before/after an accepted establishment into the real message.Parse + dispatch + handlers; arbitrary raw datagrams of <= 9 (quick) / 14 (thorough) bytes are explored too, and the association's real receive loop (PFCPConn.Serve: reader goroutine, read deadline, dispatch, time-out, Shutdown) runs on a scripted socket delivering a valid request, an arbitrary datagram of 0..2 bytes (the empty UDP datagram included) and another valid request. Every Go run-time panic, process exit, blocked channel operation or second response on any path is a violation; a valid heartbeat afterwards must be answered.",
   note="Outside: long raw byte strings with symbolic length fields (go-pfcp offset arithmetic), goroutines the handlers start, schedules. The datapath is a fake that accepts. Fixed defects found by this check are listed in known_findings.json.",
   ref="DESIGN.md 6.1"),
  "C05": dict(
@@ -54,7 +54,7 @@ claimed.update({
   note="The clock is an input: every time.Now/Since of repository code reads a fresh symbolic instant; the native replay feeds the same instants to the real code through a patched copy of package time in the overlay of the replay build. The UP4 digest loop, the BESS socket reader and node.Serve's dispatch are blocking service loops and are outside. One association.",
   ref="DESIGN.md 6.13, 10"),
  "C14": dict(
-  text="Bounded model checking of end-marker emission: a session with two downlink FARs on arbitrary tunnels receives a modification with 1..2 (quick) / 1..3 (thorough) Update FARs (target found/unknown, arbitrary new tunnel, arbitrary PFCPSMReq-Flags byte or none), feature on/off, datapath accept/reject; the solver decides the number of markers, their destination (tunnel before that update), TEID, source, UDP ports, GTP type and that they are handed to the datapath after the update was programmed.",
+  text="Bounded model checking of end-marker emission: a session with two downlink FARs on arbitrary tunnels receives a modification with 1..2 (quick) / 1..3 (thorough) Update FARs (target found/unknown, arbitrary new tunnel, arbitrary PFCPSMReq-Flags byte or none), feature on/off, datapath accept/reject; the solver decides the number of markers, their destination (tunnel before that update), TEID, source, UDP ports, GTP type and that they are handed to the datapath after the update was programmed. On UP4 the markers must reach the queue the sender loop reads, also after the datapath was initialised again (reconnect).",
   note="gopacket.SerializeLayers is stubbed under the engine (layer structs recorded) and real in the native replay (packet bytes decoded); the transports of SendEndMarkers are outside.",
   ref="DESIGN.md 6.14"),
 })
